@@ -18,6 +18,7 @@ open Glom
 /-- the conversions of exceptions, as extracted; the handler table is filled in per call -/
 def genEnv : Env :=
   { lk := fun _ => .error .unregistered
+    run := runHandler
     foldCatch := Generated.redFoldCatch
     iterCatch := Generated.redTargetIterCatch
     excTable := Generated.excTable }
@@ -33,6 +34,7 @@ def genReg (H : Hier) : Reg := C13.freshReg H C13.genSetup true
     concrete failing input, not only a failing facts obligation. -/
 def specEnv : Env :=
   { lk := fun _ => .error .unregistered
+    run := runHandler
     foldCatch := [("UnregisteredTarget", "FoldError")]
     iterCatch := [("Exception", "TypeError")]
     excTable := [("FoldError", ["FoldError", "GlomError", "Exception", "BaseException", "object"]),
